@@ -201,11 +201,13 @@ PROPS = {
                     "and on the implementation by the oracle, not yet proved for all inputs"],
     },
     "C04": {
-        "n_quick": 450, "n_thorough": 8000,
+        "n_quick": 800, "n_thorough": 10000,
         "check_fn": "k04_check",
         "rule": "paired marked / stripped runs: all 20 operation methods on number, bool and collection operand tuples with 1-3 distinct marks placed on the top-level value and on nested "
                 "members (combined with refined unknowns and nulls); SetVal of marked members; convert.Convert of marked values to generalised / mutated / string / dynamic targets; 12 stdlib "
-                "functions with marked and unknown arguments; non-trivial = at least one mark present",
+                "functions with marked and unknown arguments; all 90 registered stdlib functions on hinted, perturbed arguments with marks on and inside them (and a marked container above an "
+                "unknown for the functions that take marked arguments themselves); IsWhollyKnown/IsKnown/IsNull with and without marks; histories of mark operations, member reads, conversions "
+                "and transforms over a pool of values (every earlier value keeps its fingerprint, no result carries a mark its operands lacked); non-trivial = at least one mark present",
         "trusted_base": TB_VALUE,
         "assumptions": ["conversions and function calls are checked by the paired-run oracle on the implementation; their Gallina models belong to C08/C10"],
         "partial": ["theorems cover every operation method (generic wrapper theorems + instances), Equals' deep collection and SetVal hoisting; Convert and Function.Call mark handling is oracle-checked here and proved where their models live (C10)"],
